@@ -45,6 +45,11 @@ PPL::Grid::Grid(const Grid& y, Complexity_Class)
     con_sys = y.con_sys;
     gen_sys = y.gen_sys;
   }
+  else if (y.marked_empty()) {
+    // The congruence system of an empty grid is the false congruence,
+    // whatever the up-to-date flags say (see set_empty()).
+    set_empty();
+  }
   else {
     if (y.congruences_are_up_to_date()) {
       con_sys = y.con_sys;
